@@ -57,6 +57,12 @@ def gen_source(rng):
         ch = rng.choice("\x0b\x0c\x1c\x1d\x1e\x85\u2028\u2029")
         extra.append(rng.choice([f"pg  'page one{ch}page two';", f"pl  (1 'x{ch} y');", f"pn {{ m 'a {ch}b'; }}"]))
         nontrivial = True
+    if rng.random() < 0.3:
+        # quoted values that begin or end with a quote character of the other flavour (what the first read makes of them is
+        # the business of C02 / C04; whatever it is, it must be a fixed point of the cycle)
+        extra.append(rng.choice(["remark  'he said \"go\"';", "label  '\"Beta\" release';", "hint  \"call it 'final'\";",
+                                 "unit  ( 'unit \"m\"' 2 );", "qn { w '\"x\"'; }"]))
+        nontrivial = True
     for i in range(rng.randrange(0, 4)):
         kind = rng.randrange(6)
         k = f"e{i}_{gen.plain_key(rng)}"
@@ -240,7 +246,7 @@ def partly_unresolved_list(case, f):
     return False
 
 
-KNOWN_PREDICATES = {"C03-unresolved-after-list-substitution": partly_unresolved_list}
+KNOWN_PREDICATES = {}      # the former finding C03-unresolved-after-list-substitution is repaired (3c2b422); its witness stays in the run
 
 
 def run(ctx):
@@ -250,6 +256,8 @@ def run(ctx):
     for i in range(ctx.n(300, 6000)):
         files, root, has_inc, nt = gen_source(rng)
         cases.append(({"files": files, "has_includes": has_inc, "n": 3 if ctx.tier == "quick" else 4}, nt))
+    # the witness of the repaired finding C03-unresolved-after-list-substitution (3c2b422) stays in every run
+    cases.append(({"files": {"root": "y2  ('x y' 2.5);\nk  \"$a1 * $y2\";\n"}, "has_includes": False, "n": 3}, True))
     # correspondence: string-level cycles on include-free sources (model vs implementation)
     nf = [c for c, _ in cases if not c["has_includes"]]
     plines = []
